@@ -56,6 +56,16 @@ val module_items : node -> node list
 
 val subseq_items : node list -> node list -> bool
 
+val ends_with : string -> str -> bool
+
+val is_stmt : node -> bool
+
+val remove_jv : jv -> jv list -> jv list option
+
+val sub_multiset : jv list -> jv list -> bool
+
+val stmts_kept : node -> node -> bool
+
 val extras : jv -> jv -> (str * str) list
 
 val regex_table : jv -> str -> bool
